@@ -320,6 +320,8 @@ class Interp(Engine):
                     return self.eval(ca[1])
                 finally:
                     self.frames.pop()
+            if attr == "__name__":
+                return obj.name
             raise Unsupported("class attribute %s.%s" % (obj.name, attr))
         if isinstance(obj, (ListV, DictV, ExtV)) or (isinstance(obj, Sym) and obj.k in ("str", "bytes")) \
                 or isinstance(obj, (str, bytes, Opaque_)):
@@ -328,7 +330,7 @@ class Interp(Engine):
             return getattr(obj, attr)
         if obj is None:
             self.oblige("safe", z3.BoolVal(False), "None has no attribute %s" % attr, assume_after=False)
-            raise PyRaise(ExcV(AttributeError, (attr,)))
+            raise PyRaise(ExcV(AttributeError, (attr,), {"reported": True}))
         # real python objects (stdlib modules, classes)
         import types
         if isinstance(obj, types.ModuleType) or isinstance(obj, type):
@@ -337,7 +339,7 @@ class Interp(Engine):
             except AttributeError:
                 self.oblige("safe", z3.BoolVal(False), "%s has attribute %s" % (getattr(obj, "__name__", obj), attr),
                             assume_after=False)
-                raise PyRaise(ExcV(AttributeError, (attr,)))
+                raise PyRaise(ExcV(AttributeError, (attr,), {"reported": True}))
         raise Unsupported("attribute .%s of %r (line %d)" % (attr, obj, self.cur_line))
 
     def setattr_v(self, obj, attr, val):
@@ -829,7 +831,7 @@ class Interp(Engine):
             self.oblige("call-shape", z3.BoolVal(False),
                         "%s takes %d positional arguments, %d given" % (qual, len(names), len(pos)),
                         assume_after=False)
-            raise PyRaise(ExcV(TypeError, ("arity",)))
+            raise PyRaise(ExcV(TypeError, ("arity",), {"reported": True}))
         for n_, v in zip(names, pos):
             env[n_] = v
         if a.vararg is not None:
@@ -840,14 +842,14 @@ class Interp(Engine):
                 if k in env:
                     self.oblige("call-shape", z3.BoolVal(False), "%s: multiple values for %s" % (qual, k),
                                 assume_after=False)
-                    raise PyRaise(ExcV(TypeError, ("dup",)))
+                    raise PyRaise(ExcV(TypeError, ("dup",), {"reported": True}))
                 env[k] = v
             elif a.kwarg is not None:
                 extra[k] = v
             else:
                 self.oblige("call-shape", z3.BoolVal(False), "%s has no parameter %s" % (qual, k),
                             assume_after=False)
-                raise PyRaise(ExcV(TypeError, ("kw",)))
+                raise PyRaise(ExcV(TypeError, ("kw",), {"reported": True}))
         if a.kwarg is not None:
             env[a.kwarg.arg] = extra
         ndef = len(a.defaults)
@@ -859,7 +861,7 @@ class Interp(Engine):
                 else:
                     self.oblige("call-shape", z3.BoolVal(False), "%s: missing argument %s" % (qual, n_),
                                 assume_after=False)
-                    raise PyRaise(ExcV(TypeError, ("missing",)))
+                    raise PyRaise(ExcV(TypeError, ("missing",), {"reported": True}))
         for x, d in zip(a.kwonlyargs, a.kw_defaults):
             if x.arg not in env and d is not None:
                 env[x.arg] = ("__default__", d)
